@@ -131,7 +131,7 @@ def scenarios(tier):
                     origins=og, dns=d, net=net, kinds='AF' if tier == 'quick' else 'AFO', horizon=600,
                     features={'mode': mode, 'role': role, 'adversary': name, 'canary_offset': str(off),
                               '_fault_clients': {'c0'}, '_fault_addrs': ADV_ADDRS}))
-    return out + tls_front_scenarios(tier)
+    return out + tls_front_scenarios(tier) + idle_scenarios(tier)
 
 
 def tls_front_scenarios(tier):
@@ -153,6 +153,34 @@ def tls_front_scenarios(tier):
                                 mode=mode, clients=clients, kinds='', horizon=300,
                                 features={'mode': mode, 'role': 'tls_front', 'adversary': name, 'canary_offset': 'none',
                                           '_no_canary': True}))
+    return out
+
+
+def idle_scenarios(tier):
+    """The adversary goes silent (half a request / after an exchange / never sends) and is reaped by
+    the idle sweep (--timeout 1, virtual clock) while a canary is being served and before another one."""
+    out = []
+    fwd = b'GET http://adv.test/a HTTP/1.1\r\nHost: adv.test\r\n\r\n'
+    silent = [('silent-half-request', [('send', fwd[:20]), ('wait_eof',)]),
+              ('silent-after-exchange', [('send', fwd), ('wait_recv', len(R_A)), ('wait_eof',)]),
+              ('silent-never-sends', [('wait_eof',)])]
+    for mode in ('local', 'remote'):
+        fa, fo = flags_for(mode)
+        for name, script in silent:
+            for two in (False, True):
+                clients = [dict(script=script)]
+                if two:
+                    clients.append(dict(script=list(script), start_turn=1))
+                n0 = len(clients)
+                clients += [dict(script=canary_script(b'c'), start_turn=2),
+                            dict(script=canary_script(b't'), start_turn=130)]      # after the sweep (1 s = 40 idle turns)
+                out.append(Scenario('%s/%s%s' % (mode, name, '-x2' if two else ''), fa + ['--timeout', '1'], flags_opts=fo,
+                                    mode=mode, clients=clients,
+                                    origins={('10.0.0.9', 80): lambda: HttpOrigin([[R_A]]),
+                                             ('10.0.0.1', 80): lambda: HttpOrigin([[CANARY_RESP]])},
+                                    dns={'adv.test': '10.0.0.9', 'h.test': '10.0.0.1'}, kinds='', horizon=2000, min_time=4.0,
+                                    features={'mode': mode, 'role': 'idle_reaped', 'adversary': name, 'canary_offset': 'timed',
+                                              '_canaries': [n0, n0 + 1]}))
     return out
 
 
@@ -193,7 +221,8 @@ def check(w):
             out.append({'symptom': 'later_connection_never_accepted', 'features': {}, 'detail': None})
         return out
     ref = reference(w.scn.mode)
-    for idx, label in ((1, 'canary'), (2, 'subsequent')):
+    cans = w.scn.features.get('_canaries')
+    for idx, label in (((cans[0], 'canary'), (cans[1], 'subsequent')) if cans else ((1, 'canary'), (2, 'subsequent'))):
         t = transcript(w, idx)
         if t != ref:
             out.append({'symptom': label + '_connection_not_served_as_alone', 'features': {},
